@@ -1708,7 +1708,13 @@ class Processor:
         for idx, key in rem_dels:
             result_coord = updated_coords[idx].deepest_node_coord
             if id(result_coord) not in copied_coords:
-                result_coord.node = copy(result_coord.node)
+                # A shallow copy of a ruamel Hash shares the original's own
+                # bookkeeping of which keys are its own rather than merged
+                # in (YAML Merge Keys); build the copy from the items.
+                result_coord.node = (
+                    type(result_coord.node)(result_coord.node)
+                    if isinstance(result_coord.node, CommentedMap)
+                    else copy(result_coord.node))
                 copied_coords.append(id(result_coord))
             del result_coord.node[key]
 
